@@ -43,12 +43,18 @@ pub fn drive_ts(seed: u64, nconf: usize, out: &str) -> serde_json::Value {
         let probe = P4::timeline().duration_seconds(cyc as f32 * tick).delay_seconds(del as f32 * tick)
             .repeat(repeat_of(rep)).reverse(rev)
             .keyframe(P4::keyframe(0.0).x(0.0)).keyframe(P4::keyframe(1.0).x(1048576.0)).build();
+        // the same probe with a substituted start value: tells whether the first forward pass is in effect
+        let mut probe_ov = probe.clone();
+        probe_ov.start_with(&P4 { x: 524288.0, ..P4::default() });
         writeln!(f, "{}", json!({"ev":"cfg","cyc":cyc,"del":del,"rep":rep,"rev":rev,"e":e})).unwrap();
         configs += 1;
         let exp_total = if rep == -2 { f32::INFINITY } else if rep == -3 { del as f32 * tick + cyc as f32 * tick * 4294967296.0f32 }
             else { del as f32 * tick + cyc as f32 * tick * ncyc as f32 };
-        let total_ok = (probe.duration() == exp_total || (probe.duration() - exp_total).abs() <= exp_total.abs() * 2.4e-7)
-            && probe.delay() == del as f32 * tick && probe.cycle_duration() == Some(cyc as f32 * tick) && probe.repeat() == repeat_of(rep);
+        // (a panic while querying the metadata is an observation too: total_ok = false)
+        let total_ok = std::panic::catch_unwind(std::panic::AssertUnwindSafe(|| {
+            (probe.duration() == exp_total || (probe.duration() - exp_total).abs() <= exp_total.abs() * 2.4e-7)
+                && probe.delay() == del as f32 * tick && probe.cycle_duration() == Some(cyc as f32 * tick) && probe.repeat() == repeat_of(rep)
+        })).unwrap_or(false);
         // times: neighbourhoods of every boundary, half-cycle points, and random times
         let mut times: Vec<i64> = vec![0, 1, del, del + 1];
         if del > 0 { times.push(f32_prev(del)); times.push(f32_next(del)); }
@@ -67,15 +73,24 @@ pub fn drive_ts(seed: u64, nconf: usize, out: &str) -> serde_json::Value {
             if (t as f32) as i64 != t || del > t && false { continue; }
             let d = t - del; if d >= 0 && (d as f32) as i64 != d { continue; }
             let secs = t as f32 * tick;
-            let (k, rp, rv, pos) = match ts.get_position(secs) {
-                TimeScalePosition::NotStarted => (0, 0, 0, 0.0f32),
-                TimeScalePosition::Active(p, ls) => (1, ls.is_repeating as i32, ls.is_reversing as i32, p),
-                TimeScalePosition::Ended(p) => (2, 0, 0, p),
+            // a panic in the code under test is an observation, not a harness failure (C20)
+            let r = std::panic::catch_unwind(std::panic::AssertUnwindSafe(|| {
+                let (k, rp, rv, pos) = match ts.get_position(secs) {
+                    TimeScalePosition::NotStarted => (0, 0, 0, 0.0f32),
+                    TimeScalePosition::Active(p, ls) => (1, ls.is_repeating as i32, ls.is_reversing as i32, p),
+                    TimeScalePosition::Ended(p) => (2, 0, 0, p),
+                };
+                let mut target = P4::default();
+                probe.update(&mut target, secs);
+                let mut target_ov = P4::default();
+                probe_ov.update(&mut target_ov, secs);
+                (k, rp, rv, pos, target.x, target_ov.x)
+            }));
+            let rec = match r {
+                Ok((k, rp, rv, pos, x, xo)) => json!({"ev":"pos","t":t,"k":k,"rp":rp,"rv":rv,"q":(pos as f64 * 1048576.0).round() as i64,
+                                                       "x": (x as f64).round() as i64, "xo": (xo as f64).round() as i64, "total_ok": total_ok as i32}),
+                Err(_) => json!({"ev":"pos","t":t,"k":-1,"rp":0,"rv":0,"q":-1,"x":-1,"xo":-1,"total_ok":1,"panic":1}),
             };
-            let mut target = P4::default();
-            probe.update(&mut target, secs);
-            let rec = json!({"ev":"pos","t":t,"k":k,"rp":rp,"rv":rv,"q":(pos as f64 * 1048576.0).round() as i64,
-                             "x": (target.x as f64).round() as i64, "total_ok": total_ok as i32});
             if sample.len() < 3 { sample.push(json!({"cfg":{"cyc":cyc,"del":del,"rep":rep,"rev":rev,"tick_log2":e},"obs":rec.clone()})); }
             writeln!(f, "{}", rec).unwrap();
             events += 1;
